@@ -39,30 +39,158 @@ def panicClass : Panic → String
   | .unwrapNone => "Option::unwrap()"
   | .fuel => "MODEL-OUT-OF-FUEL"
 
+/-- Largest vertex count at which the proven (list-based, cubic at that size) model is run. -/
+def modelLimit : Nat := 420
+
+/-- Largest vertex count at which the array transcription `fastRun` is run; above it the
+large-n stream of the harness is oracle-only. -/
+def fastLimit : Nat := 21000
+
+/-! ### Array transcription of the model (for the large-n stream only)
+
+`fastRun` is a line-by-line transcription of `Coupe.Kl.run {}` to arrays (O(n + m) per flip
+instead of O(n·m) list lookups), for well-formed graphs and two-label partitions only.  It is
+NOT the object of the theorems.  It is tied to the proven model inside every run: on every op
+with `n ≤ modelLimit` on which it applies, `handleKl` runs both and prints
+`MODEL-TWIN-MISMATCH` (a correspondence break) if they differ. -/
+
+abbrev AGraph := Array (Array (Nat × Int))
+
+def edgeCutA (g : AGraph) (p : Array Nat) : Int := Id.run do
+  let mut s : Int := 0
+  for v in [0:g.size] do
+    let pv := p[v]!
+    for e in g[v]! do
+      if e.1 < v then
+        if pv != p[e.1]! then s := s + e.2
+      else break            -- `take_while`
+  return s
+
+/-- last maximum among the unlocked vertices of part `a` with index `< lim` -/
+def pickA (p : Array Nat) (locks : Array Bool) (gains : Array Int) (lim a : Nat) : Option (Nat × Int) := Id.run do
+  let mut best : Option (Nat × Int) := none
+  for i in [0:lim] do
+    if p[i]! == a && !locks[i]! then
+      let gi := gains[i]!
+      match best with
+      | none => best := some (i, gi)
+      | some (_, bg) => if bg ≤ gi then best := some (i, gi)
+  return best
+
+def fastRun (g : AGraph) (wlen : Nat) (mp mf : Option Nat) (mb a b : Nat) (p0 : Array Nat) : Array Nat := Id.run do
+  let n := p0.size
+  let lim := min n wlen
+  let mut p := p0
+  let mut cut := edgeCutA g p
+  let mut newCut := cut
+  let mut iter := 0
+  repeat
+    if Coupe.Kl.passLimit mp iter then break
+    cut := newCut
+    let mut gains : Array Int := Array.replicate n 0
+    let mut locks : Array Bool := Array.replicate n false
+    let mut saves : Array (Nat × Nat) := #[]
+    let mut cuts : Array Int := #[]
+    for _ in [0:Coupe.Kl.flipBound n mf] do
+      for i in [0:n] do
+        let pi := p[i]!
+        let mut d : Int := 0
+        for e in g[i]! do
+          if pi == p[e.1]! then d := d - e.2 else d := d + e.2
+        gains := gains.modify i (· + d)
+      let some (i, gi) := pickA p locks gains lim a | break
+      let pi := p[i]!
+      for e in g[i]! do
+        if pi == p[e.1]! then gains := gains.modify e.1 (· + 2 * e.2)
+        else gains := gains.modify e.1 (· - 2 * e.2)
+      let some (j, gj) := pickA p locks gains lim b | break
+      if gi + gj ≤ 0 && mb ≤ Coupe.Kl.numBadMove then break
+      locks := (locks.set! i true).set! j true
+      saves := saves.push (i, j)
+      let (x, y) := (p[i]!, p[j]!)
+      p := (p.set! i y).set! j x
+      cuts := cuts.push (edgeCutA g p)
+    if cuts.isEmpty then break
+    -- first minimum
+    let mut best := 0
+    let mut bestCut := cuts[0]!
+    for t in [1:cuts.size] do
+      if cuts[t]! < bestCut then
+        best := t
+        bestCut := cuts[t]!
+    for t in [best + 1:saves.size] do
+      let (i, j) := saves[t]!
+      let (x, y) := (p[i]!, p[j]!)
+      p := (p.set! i y).set! j x
+    newCut := bestCut
+    if cut ≤ newCut then
+      for t in [0:best + 1] do
+        let (i, j) := saves[t]!
+        let (x, y) := (p[i]!, p[j]!)
+        p := (p.set! i y).set! j x
+      newCut := cut
+      break
+    iter := iter + 1
+  return p
+
 /-- op: `kl <max_passes|-> <max_flips|-> <max_bad> <wlen> <n> <ids…> <rows> {<deg> {<j> <w>}…}…`
 out: `ok <cut before> <cut after> | <ids>` | `panic <class>` -/
-def handle (toks : List String) : String :=
+def handleKl (toks : List String) : String :=
   match toks with
-  | "kl" :: mp :: mf :: mb :: wlen :: n :: rest =>
+  | mp :: mf :: mb :: wlen :: n :: rest =>
     match (do
       let mp ← parseOptNat? mp
       let mf ← parseOptNat? mf
       let mb ← parseNat? mb
       let wlen ← parseNat? wlen
       let n ← parseNat? n
+      if n > fastLimit then pure none else
       let (ids, rest) ← takeParsed parseNat? n rest
       match rest with
       | r :: rest =>
         let r ← parseNat? r
         let (g, rest) ← takeRows r rest
-        if rest.isEmpty && g.all strictlyIncreasing then some (mp, mf, mb, wlen, ids, g) else none
+        if rest.isEmpty && g.all strictlyIncreasing then some (some (mp, mf, mb, wlen, ids, g)) else none
       | [] => none) with
     | none => "bad-op"
-    | some (mp, mf, mb, wlen, ids, g) =>
-      match run {} g wlen mp mf mb ids with
-      | .ok out =>
+    | some none => "skip large-n (oracle only)"
+    | some (some (mp, mf, mb, wlen, ids, g)) =>
+      let n := ids.length
+      -- where the array transcription applies: `kl_total`'s hypotheses
+      let fast : Option (Array Nat) :=
+        match uniqueIds ids with
+        | [a, b] =>
+          if g.length == n && g.all (fun row => row.all (fun e => e.1 < n)) then
+            some (fastRun (g.map List.toArray).toArray wlen mp mf mb a b ids.toArray)
+          else none
+        | _ => none
+      let line (out : List Nat) : String :=
         "ok " ++ toString (edgeCut g ids) ++ " " ++ toString (edgeCut g out) ++ " | " ++ joinNats out
-      | .panic c => "panic " ++ panicClass c
+      if n ≤ modelLimit then
+        match run {} g wlen mp mf mb ids with
+        | .ok out =>
+          match fast with
+          | some f => if f.toList == out then line out else "MODEL-TWIN-MISMATCH " ++ joinNats f.toList
+          | none => line out
+        | .panic c => if fast.isSome then "MODEL-TWIN-MISMATCH panic" else "panic " ++ panicClass c
+      else
+        match fast with
+        | some f =>
+          let ga := (g.map List.toArray).toArray
+          "ok " ++ toString (edgeCutA ga ids.toArray) ++ " " ++ toString (edgeCutA ga f) ++ " | " ++ joinNats f.toList
+        | none => "skip large-n, not well-formed"
+  | _ => "bad-op"
+
+/-- `kl …` as above; `klx <threads ≤ 64> <reuse 0|1> …` = the same call made inside a rayon pool
+of `threads` workers and, with `reuse`, also with a `KernighanLin` value that has been used
+before: neither may change the result, the model's answer is the same. -/
+def handle (toks : List String) : String :=
+  match toks with
+  | "kl" :: rest => handleKl rest
+  | "klx" :: t :: r :: rest =>
+    match parseNat? t, parseNat? r with
+    | some t, some r => if t ≤ 64 && r ≤ 1 then handleKl rest else "bad-op"
+    | _, _ => "bad-op"
   | _ => "bad-op"
 
 end Coupe.Driver.C15
